@@ -247,13 +247,13 @@ def extract_inputs(jtxt):
 
 
 # -------------------------------------------------------------------- one obligation
-def run_obligation(ctx, unit, ob, cfg, tier, canary=False, want_trace=False, cover=False):
+def run_obligation(ctx, unit, ob, cfg, tier, canary=False, want_trace=False, cover=False, search=False):
     """returns dict(status = proved|failed|undecided, ...)"""
     res = {'unit': unit['unit'], 'ob': ob['id'], 'config': cfg,
            'class': 'B' if cfg in ob.get('bounded_configs', unit.get('bounded_configs', ())) else ob.get('class', 'U'),
            'mode': ob.get('mode', 'plain'), 'canary': canary, 'is_cover': cover, 'cmds': []}
     d = ctx.unit_dir(unit, cfg)
-    tag = ob['id'] + ('.canary' if canary else '') + ('.cover' if cover else '')
+    tag = ob['id'] + ('.canary' if canary else '') + ('.cover' if cover else '') + ('.search' if search else '')
     spec = os.path.join(ROOT, unit['spec'])
     harness = ob['harness']
     budget = ob.get('timeout', 120) * (5 if tier == 'thorough' else 1)
@@ -271,7 +271,7 @@ def run_obligation(ctx, unit, ob, cfg, tier, canary=False, want_trace=False, cov
         res.update(status='undecided', reason='goto-cc failed: ' + out[-1500:])
         return res
     cur = a
-    uses_loops = bool(unit.get('loops')) and not ob.get('no_loop_contracts')
+    uses_loops = bool(unit.get('loops')) and not ob.get('no_loop_contracts') and not search
     if uses_loops:
         b = os.path.join(d, tag + '.b.gb')
         cmd = ['goto-instrument', '--apply-loop-contracts', cur, b]
@@ -296,7 +296,9 @@ def run_obligation(ctx, unit, ob, cfg, tier, canary=False, want_trace=False, cov
             return res
         cur = c
     flags = list(CBMC_BASE) + ob.get('cbmc', [])
-    if ob.get('unwind'):
+    if search:
+        flags += ['--unwind', str(ob.get('search_unwind', 10)), '--no-unwinding-assertions']
+    elif ob.get('unwind'):
         flags += ['--unwind', str(ob['unwind']), '--unwinding-assertions']
     solver = ob.get('solver')
     if solver == 'cadical':
@@ -458,6 +460,7 @@ def write_replay(prop, res, native=None):
     doc = {'property': prop, 'unit': res['unit'], 'obligation': res['ob'], 'config': res['config'],
            'failed_checks': res.get('failed_props'), 'cbmc_output': res.get('cbmc_tail'),
            'inputs': res.get('trace_inputs'), 'trace_failed': res.get('trace_failed'), 'commands': res.get('cmds'),
+           'bounded_counterexample_search': res.get('search'),
            'native': native}
     json.dump(doc, open(path, 'w'), indent=1)
     return path
@@ -548,11 +551,20 @@ def run_property(prop, tier, seed, jobs_n):
         ob = [o for o in u['obligations'] if o['id'] == r['ob']][0]
         native = None
         reproduced = False
+        if u.get('loops') and not ob.get('no_loop_contracts') and ob.get('mode') != 'dfcc':
+            # a loop-contract counterexample may start from an unreachable havocked state: look for a reachable one
+            # with the same harness, loops unwound a few times instead of abstracted (bounded counterexample search)
+            sr = run_obligation(ctx, u, ob, r['config'], tier, False, True, False, True)
+            if sr.get('status') == 'failed' and sr.get('trace_inputs'):
+                r['trace_inputs'] = sr['trace_inputs']
+                r['search'] = {'unwind': ob.get('search_unwind', 10), 'failed_checks': sr.get('failed_props')}
+        cb_descs = [p['desc'] for p in r.get('failed_props', [])] + [p['desc'] for p in (r.get('search') or {}).get('failed_checks', [])]
         if r.get('trace_inputs') is not None and u.get('native', True):
             try:
                 exe = native_build(ctx, u, ob, r['config'])
                 native = native_run(exe, r['trace_inputs'])
-                reproduced = bool(native['assert_failures'] or native['sanitizer'])
+                # reproduced = the real code fails one of the checks cbmc failed (or a sanitizer fires)
+                reproduced = bool([a for a in native['assert_failures'] if any(a in dsc or dsc in a for dsc in cb_descs)] or native['sanitizer'])
             except Undecided as e:
                 native = {'error': str(e)[-2000:]}
         modular = bool(ob.get('replace')) or (bool(u.get('loops')) and not ob.get('no_loop_contracts')) or ob.get('mode') == 'dfcc'
@@ -617,8 +629,17 @@ def run_property(prop, tier, seed, jobs_n):
     print('property=%s tier=%s units=%d cbmc-properties=%d discharged=%d canaries=%d/%d undecided=%d known=%d violations=%d wall=%.0fs' % (
         prop, tier, len(results), n_ob, n_dis, ev['coverage']['canaries_failed_as_expected'], len(canaries), len(undecided), len(known_hits),
         len(viol_lines), time.time() - t_start))
-    for u in undecided[:30]:
-        print('UNDECIDED property=%s unit=%s ob=%s config=%s reason=%s' % (prop, u.get('unit'), u.get('ob'), u.get('config'), (u.get('reason') or '')[:600].replace('\n', ' | ')))
+    seen_reasons = set()
+    for u in undecided:
+        r = (u.get('reason') or '')
+        short = r if len(r) <= 420 else r[:120] + ' ... ' + r[-300:]
+        key = re.sub(r'/\S+', '', short)[-160:]
+        if key in seen_reasons:
+            continue
+        seen_reasons.add(key)
+        print('UNDECIDED property=%s unit=%s ob=%s config=%s reason=%s' % (prop, u.get('unit'), u.get('ob'), u.get('config'), short.replace('\n', ' | ')))
+    if len(undecided) > len(seen_reasons):
+        print('(%d further UNDECIDED lines with the same reasons omitted; see evidence file)' % (len(undecided) - len(seen_reasons)))
     if viol_lines:
         for l in viol_lines:
             print(l)
